@@ -205,9 +205,12 @@ pub fn get_solidity_version_from_source_unit(source_unit: SourceUnit) -> Option<
                 continue;
             }
 
+            //Versions that are only mentioned in a comment inside of the directive do not count
+            let solidity_version_str = remove_comments(&solidity_version_literal.string);
+
             //A version component that is not a number that fits an i32 yields no version
             let minor_major_patch_version =
-                get_solidity_major_minor_patch_version(&solidity_version_literal.string)
+                get_solidity_major_minor_patch_version(&solidity_version_str)
                     .iter()
                     .map(|f| f.parse::<i32>().ok())
                     .collect::<Option<Vec<i32>>>()?;
@@ -225,6 +228,12 @@ pub fn get_solidity_version_from_source_unit(source_unit: SourceUnit) -> Option<
     }
 
     None
+}
+
+///Replaces every `/* */` and `//` comment in the text with a space. The parser hands over the value of a pragma directive as it is written, comments included
+pub fn remove_comments(text: &str) -> String {
+    let block_or_line_comment = Regex::new(r"(?s)/\*.*?(\*/|$)|//[^\n]*").unwrap();
+    block_or_line_comment.replace_all(text, " ").into_owned()
 }
 
 pub fn get_solidity_major_version(solidity_version_str: &str) -> i32 {
